@@ -13,6 +13,7 @@ package main
 
 import (
 	"encoding/hex"
+	"fmt"
 	"strings"
 	"sync"
 
@@ -21,9 +22,9 @@ import (
 
 type c19Row struct {
 	Kind string    `json:"k"`
-	In   string    `json:"in"`  // hex
-	Errs [3]string `json:"e"`   // hex; index = language setting 0 (both), 1 (Chinese), 2 (English)
-	Fail [3]int    `json:"f"`   // furthest failure: line, col, offset (language 0 run)
+	In   string    `json:"in"`   // hex
+	Errs [3]string `json:"e"`    // hex; index = language setting 0 (both), 1 (Chinese), 2 (English)
+	Fail [3]int    `json:"f"`    // furthest failure: line, col, offset (language 0 run)
 	Same bool      `json:"same"` // the three runs agree on the furthest failure position and the error count
 	NErr int       `json:"nerr"`
 }
@@ -41,7 +42,9 @@ func c19Parse(src string, lang int) (string, bool, ds.VerifParseStatsT, string) 
 	c.apply(vm)
 	// two custom dice made of multi-byte text (used by the "custom" family only; no other input contains them): a regular
 	// expression and a stream parser
-	h := func(ctx *ds.Context, groups []string, payload any) (*ds.VMValue, string, error) { return ds.NewIntVal(1), "", nil }
+	h := func(ctx *ds.Context, groups []string, payload any) (*ds.VMValue, string, error) {
+		return ds.NewIntVal(1), "", nil
+	}
 	_ = vm.RegCustomDice(`骰(\d+)`, h)
 	_ = vm.RegCustomDiceParser(func(ctx *ds.Context, st *ds.CustomDiceStream) (*ds.CustomDiceParseResult, error) {
 		for _, want := range []rune("命运") {
@@ -450,7 +453,65 @@ func init() {
 				}
 			}
 		}
-		emit(map[string]any{"checked": n, "diffs": diffs})
+		// bodies compiled at their first use (a computed value / function created by the host or restored from JSON): the syntax
+		// error of a body is reported in the language of the VM that evaluates it NOW — a value shared by two VMs, or one VM
+		// whose setting changes between two evaluations, must not carry the first evaluation's language along
+		lazy := 0
+		for _, body := range inputs {
+			if strings.TrimSpace(body) == "" || strings.ContainsAny(body, "\xff") {
+				continue
+			}
+			for a := 0; a < 3; a++ {
+				for b := 0; b < 3; b++ {
+					if a == b {
+						continue
+					}
+					for kind := 0; kind < 2; kind++ {
+						mkv := func() *ds.VMValue {
+							if kind == 0 {
+								return ds.NewComputedVal(body)
+							}
+							return ds.NewFunctionValRaw(&ds.FunctionData{Expr: body, Name: "fz"})
+						}
+						use := []string{"cz", "fz()"}[kind]
+						name := []string{"cz", "fz"}[kind]
+						eval := func(vm *ds.Context) (txt string) {
+							defer func() {
+								if r := recover(); r != nil {
+									txt = "panic: " + fmt.Sprint(r)
+								}
+							}()
+							if err := vm.Run(use); err != nil {
+								return err.Error()
+							}
+							return "<no error>"
+						}
+						mk := func(lang int, v *ds.VMValue) *ds.Context {
+							vm := ds.NewVM()
+							c := allOn()
+							c.Lang = lang
+							c.apply(vm)
+							vm.Attrs.Store(name, v)
+							return vm
+						}
+						wantB := eval(mk(b, mkv())) // fresh value, fresh VM configured b
+						shared := mkv()
+						_ = eval(mk(a, shared))
+						gotShared := eval(mk(b, shared))
+						one := mk(a, mkv())
+						_ = eval(one)
+						one.Config.ParseErrorLanguage = b
+						gotSame := eval(one)
+						lazy++
+						if (gotShared != wantB || gotSame != wantB) && len(diffs) < 10 {
+							diffs = append(diffs, diff{hex.EncodeToString([]byte(body)), a, b, "lazily compiled " + []string{"computed value", "function"}[kind] + "; a fresh value on a VM configured B says: " + wantB,
+								"value shared with a VM configured A first: " + gotShared + " || same VM after its setting changed from A to B: " + gotSame})
+						}
+					}
+				}
+			}
+		}
+		emit(map[string]any{"checked": n, "lazy_checked": lazy, "diffs": diffs})
 	}
 
 	cmds["c19-conc"] = func(args []string) {
